@@ -31,7 +31,8 @@ TECHNIQUE = ("stateless exploration of every operation history up to a depth bou
              "replayed from scratch, differential oracle against a fresh world")
 RULE = ("cases = (pool, history): every sequence of <= d operations from the pool's alphabet (full / take-k-close / "
         "take-1-keep / fault at j-th user call) followed by a full evaluation of every pool query; non-trivial = the "
-        "history contains at least one non-full step (early close, abandoned iterator or injected fault)")
+        "history contains at least one non-full step (early close, abandoned iterator or injected fault)"
+        ' Wave 7: pool I also shares a disjunction whose first side is false everywhere under entity(y) / set_of([y, w]); pool J: variables whose domain is a query (one query for two variables, a fault while it is read, the(...) without / with several solutions).')
 ASSUMPTIONS = ["kept iterators are abandoned (never resumed); resuming interleaved iterators is not claimed by the statement",
                "objects built by rule conclusions are compared structurally (type + field identities)"]
 BATCH = 60
